@@ -224,15 +224,8 @@ def inbox(anchor, sides, u):
     return tuple(p)
 
 
-def make_problem(rng, cls, n, boxkind, nq, want_ok=None, label=None):
-    """one generator set + query positions.  want_ok: True -> a box that satisfies the precondition of the exact predicates,
-    False -> a box that violates it, None -> whatever the draw gives"""
-    for attempt in range(200):
-        a, s = gen_box(rng, boxkind)
-        ok = box_precondition_ok(a, s)
-        if want_ok is None or ok == want_ok or boxkind in ("unit", ):
-            break
-    units = gen_unit(rng, cls, n) if isinstance(cls, str) else cls
+def place(rng, units, a, s, nq, cls, boxkind, label=""):
+    """map unit-cube coordinates into the box and draw the query positions"""
     pts, seen = [], set()
     for u in units:
         p = inbox(a, s, u)
@@ -254,7 +247,55 @@ def make_problem(rng, cls, n, boxkind, nq, want_ok=None, label=None):
             i = rng.below(len(pts))
             qs.append(inbox(a, s, tuple((pts[i][k] - a[k]) / s[k] + 10.0 ** (-1 - 8 * rng.uniform()) * (rng.uniform() - .5) for k in range(3))))
     qs = [tuple(min(max(q[k], a[k]), a[k] + s[k] * (1 - 2.0 ** -30)) for k in range(3)) for q in qs]
-    return dict(cls=(cls if isinstance(cls, str) else (label or "corpus")), box=boxkind, anchor=tuple(a), sides=tuple(s), pts=pts, qs=qs, label=label or "")
+    return dict(cls=cls, box=boxkind, anchor=tuple(a), sides=tuple(s), pts=pts, qs=qs, label=label)
+
+
+def make_spec(rng, cls, n, boxkind, nq, label=None, ncand=12):
+    """a generator set in unit coordinates + candidate boxes of the given kind (the first candidate for which the class's internal
+    representation satisfies the [1,2) precondition is used; decided by the class itself, see choose_boxes)"""
+    units = gen_unit(rng, cls, n) if isinstance(cls, str) else cls
+    cands = [gen_box(rng, boxkind) for _ in range(1 if boxkind == "unit" else ncand)]
+    return dict(cls=(cls if isinstance(cls, str) else "corpus"), units=units, box=boxkind, cands=cands, nq=nq, label=label or "", rng=rng.fork("place"))
+
+
+def choose_boxes(impl, specs, stats):
+    """asks the REAL class (harness P line, one dummy generator) which candidate boxes are admissible"""
+    probes = []
+    for si, sp in enumerate(specs):
+        for ci, (a, s) in enumerate(sp["cands"]):
+            probes.append(dict(anchor=tuple(a), sides=tuple(s), pts=[inbox(a, s, (0.37, 0.41, 0.59))], qs=[], si=si, ci=ci))
+    rc, res = run_harness(impl, probes, lambda p: ["N1"], env={"C15_ALARM": "20"})
+    ok = {}
+    for p, r in zip(probes, res):
+        V = r.get("N1")
+        good = V is not None and V["P"] is not None and V["P"][0] == 1
+        stats["candidate_boxes"] = stats.get("candidate_boxes", 0) + 1
+        if not good:
+            stats["candidate_boxes_rejected"] = stats.get("candidate_boxes_rejected", 0) + 1
+        ok.setdefault(p["si"], []).append(good)
+    out = []
+    for si, sp in enumerate(specs):
+        g = ok.get(si, [])
+        ci = g.index(True) if True in g else None
+        if ci is None:
+            a, s = (0., 0., 0.), (1., 1., 1.)
+            kind = "unit(fallback)"
+            stats["box_fallback_unit"] = stats.get("box_fallback_unit", 0) + 1
+        else:
+            a, s = sp["cands"][ci]
+            kind = sp["box"]
+        out.append(place(sp["rng"], sp["units"], a, s, sp["nq"], sp["cls"], kind, sp["label"]))
+    return out
+
+
+def make_problem(rng, cls, n, boxkind, nq, want_ok=None, label=None):
+    """(scratch/diagnostic use) one generator set in a box of the given kind; want_ok uses the Python emulation of the rescaling"""
+    for attempt in range(200):
+        a, s = gen_box(rng, boxkind)
+        if want_ok is None or box_precondition_ok(a, s) == want_ok or boxkind == "unit":
+            break
+    units = gen_unit(rng, cls, n) if isinstance(cls, str) else cls
+    return place(rng, units, a, s, nq, cls if isinstance(cls, str) else (label or "corpus"), boxkind, label or "")
 
 
 def corpus(rng):
@@ -1313,26 +1354,26 @@ def minimise(pr, kind, impl, model, budget=40.0, env=None):
 
 
 # =====================================================================================================================
-def build_problems(rng, quick):
-    probs = []
+def build_specs(rng, quick):
+    specs = []
     cor = corpus(rng)
     boxes = ["unit"] + ([BOX_KINDS[1 + rng.below(len(BOX_KINDS) - 1)]] if quick else BOX_KINDS[1:])
     for name, pts in cor:
         for b in boxes:
-            probs.append(make_problem(rng, pts, 0, b, 6, want_ok=True, label=name))
+            specs.append(make_spec(rng, pts, 0, b, 6, label=name))
     sizes = [(10, 50), (50, 140)] if quick else [(6, 30), (30, 100), (100, 200), (200, 400)]
     bi = rng.below(len(BOX_KINDS))
     for cls in CLASSES:
         for (a, b) in sizes:
             n = a + rng.below(b - a)
-            probs.append(make_problem(rng, cls, n, BOX_KINDS[bi % len(BOX_KINDS)], 16 if quick else 40, want_ok=True))
+            specs.append(make_spec(rng, cls, n, BOX_KINDS[bi % len(BOX_KINDS)], 16 if quick else 40))
             bi += 1
     # larger sets: threaded construction (job size of the grids is 100 cells), certificates on a sample of cells
     big = [("uniform", 320), ("perturbed3", 343)] if quick else [("uniform", 700), ("perturbed3", 1000), ("clustered", 1200), ("lattice", 1728), ("uniform", 2000), ("walls", 1500)]
     for cls, n in big:
-        probs.append(make_problem(rng, cls, n, BOX_KINDS[bi % len(BOX_KINDS)], 24 if quick else 60, want_ok=True))
+        specs.append(make_spec(rng, cls, n, BOX_KINDS[bi % len(BOX_KINDS)], 24 if quick else 60))
         bi += 1
-    return probs
+    return specs
 
 
 def run(ck):
@@ -1350,7 +1391,7 @@ def run(ck):
     cov = ck.coverage
     stats = {}
     if ok3:
-        probs = build_problems(ck.rng, ck.quick)
+        probs = choose_boxes(impl, build_specs(ck.rng, ck.quick), stats)
         ck.log("generator sets: %d, cells: %d" % (len(probs), sum(len(p["pts"]) for p in probs)))
         t0 = time.time()
         nviol = 0
@@ -1358,9 +1399,12 @@ def run(ck):
         sizes = {}
         done = 0
         # a construction that hangs is killed by the harness after C15_ALARM seconds
-        henv = {"C15_ALARM": os.environ.get("C15_ALARM", "30" if ck.quick else "180")}
-        bs = 12
-        for b0 in range(0, len(probs), bs):
+        henv = {"C15_ALARM": os.environ.get("C15_ALARM", "20" if ck.quick else "180")}
+        starts = [0, 4] + list(range(12, len(probs), 12))
+        for bi_, b0 in enumerate(starts):
+            bs = (starts[bi_ + 1] if bi_ + 1 < len(starts) else len(probs)) - b0
+            if bs <= 0:
+                continue
             if nviol >= 4:
                 ck.notes.append("stopped after %d of %d generator sets: %d violations already reported" % (done, len(probs), nviol))
                 break
@@ -1368,6 +1412,8 @@ def run(ck):
             done += len(results)
             for pr, items, info in results:
                 key = "%s/%s" % (pr["cls"], pr["box"])
+                if pr.get("label"):
+                    stats.setdefault("corpus_cases", {})[pr["label"]] = stats.get("corpus_cases", {}).get(pr["label"], 0) + 1
                 classes[key] = classes.get(key, 0) + 1
                 nb = len(pr["pts"])
                 sk = "<=8" if nb <= 8 else "<=50" if nb <= 50 else "<=150" if nb <= 150 else "<=500" if nb <= 500 else ">500"
@@ -1397,7 +1443,7 @@ def run(ck):
                 again = process([small], impl, model, True, st2, env=henv)[0][1]
                 texts = [it[1] for it in again if it[0] == kind][:3] or [it[1] for it in items if it[0] == kind][:3]
                 ck.violation("C15 fails on the real Voronoi grids [%s] (%s generator set, box %s, %d generators after minimisation from %d): %s; all kinds of finding on the original set: %s"
-                             % (kind, pr["cls"], pr["box"], len(small["pts"]), len(pr["pts"]), " || ".join(texts), ",".join(kinds)),
+                             % (kind, pr["cls"] + ("/" + pr["label"] if pr.get("label") else ""), pr["box"], len(small["pts"]), len(pr["pts"]), " || ".join(texts), ",".join(kinds)),
                              pr_replay(small, {"kind": kind, "threads": len(pr["pts"]) > 100}), key={"kind": kind})
         ck.log("pipeline %.1fs" % (time.time() - t0))
         cov["input_classes"] = classes
@@ -1413,10 +1459,6 @@ def run(ck):
             sweep.append(dict(cls="sweep", box=kind, anchor=tuple(a), sides=tuple(s), pts=[inbox(a, s, (0.3, 0.4, 0.6)), inbox(a, s, (0.7, 0.2, 0.5))], qs=[], label=""))
         rc, res = run_harness(impl, sweep, lambda p: ["N1"])
         bad = [(p, r["N1"]) for p, r in zip(sweep, res) if "N1" in r and r["N1"]["P"] is not None and r["N1"]["P"][0] != 1]
-        emu_mismatch = [p for p, r in zip(sweep, res) if "N1" in r and r["N1"]["P"] is not None and r["N1"]["T"] is not None
-                        and (box_precondition_ok(p["anchor"], p["sides"]) != all(1.0 <= bd(x) < 2.0 for x in r["N1"]["T"]))]
-        if emu_mismatch:
-            ck.breaks.append("the emulation of NewVoronoiGrid's rescaling used to pick admissible boxes disagrees with the class on %d boxes" % len(emu_mismatch))
         cov["precondition_sweep"] = {"boxes": nb, "internal_coordinate_outside_[1,2)": len(bad)}
         if bad:
             p, r = bad[0]
@@ -1436,7 +1478,7 @@ def run(ck):
     cov["lookups"] = {"checked": stats.get("lookups", 0), "exact": stats.get("lookups_exact", 0), "within_rounding_slack": stats.get("lookups_slack", 0)}
     cov["statistics"] = {k: v for k, v in stats.items()}
     cov["rule"] = ("generator sets from SplitMix64(VERIF_SEED): corpus (1,2,3,4,5,7,8 hand-picked points incl. collinear/coplanar/cospherical) then classes "
-                   + ",".join(CLASSES) + " x box kinds " + ",".join(BOX_KINDS) + " (boxes are redrawn until the class's internal representation satisfies the [1,2) precondition; "
+                   + ",".join(CLASSES) + " x box kinds " + ",".join(BOX_KINDS) + " (candidate boxes are submitted to the class itself and the first whose internal representation satisfies the [1,2) precondition is used; "
                    "violating boxes are counted by the precondition sweep). evaluations = (cell i, generator k) inclusions P_i in H_ik verified by the extracted check_cell "
                    "(explicit Farkas certificates = distinct_nontrivial; the rest through the certified bounding box) + get_index lookups decided by the extracted nearest_check. "
                    "Sets above the cap certify a random sample of cells (all cells get exact facet flags, lookups and the numeric oracle).")
